@@ -108,7 +108,9 @@ def is_orientation_test(test: ast.AST) -> Optional[str]:
         left, right = test.left, test.comparators[0]
         for a, b in ((left, right), (right, left)):
             name = dotted(b)
-            if name and name.startswith("Orientation.") and isinstance(a, ast.Attribute) and a.attr == "orientation":
+            # (whatever is compared with a member of Orientation is an orientation: `params.orientation` or a local
+            # bound to it)
+            if name and name.startswith("Orientation.") and ((isinstance(a, ast.Attribute) and a.attr == "orientation") or isinstance(a, ast.Name)):
                 kind = name.split(".")[1]
                 if isinstance(test.ops[0], (ast.NotEq, ast.IsNot)):
                     kind = SWAP_ORIENT.get(kind, kind)
